@@ -375,13 +375,24 @@ package geom
 //@   ensures [def] result <==> (typeof(g) == *Bounds && ptClose(b.Min, g.(*Bounds).Min, tolerance) && ptClose(b.Max, g.(*Bounds).Max, tolerance))
 //@   modifies nothing
 
+// The ring walk of ringSimilar: from an anchor, step to the next vertex, wrapping to 0 after the
+// last but one (the closing vertex repeats the first). ringStep(i, l, k) is the position after k steps.
+//@ spec nextPtS(i int, l int) int = i >= l - 2 ? 0 : i + 1
+//@ spec ringStep(i int, l int, k int) int decreases k = k <= 0 ? i : nextPtS(ringStep(i, l, k-1), l)
+
 //@ func nextPt
 //@   prop C15
 //@   ensures [range] l >= 1 && 0 <= i && i < l ==> 0 <= result && result < l
+//@   ensures [def] result == nextPtS(i, l)
+
+// minPtS: the anchor minPt returns, as a function of the ring (definitional abstraction; its value is
+// pinned by minPt's clauses [range], [least], [first]).
+//@ spec minPtS(c []Point) int
 
 //@ func minPt
 //@   prop C15
 //@   mode real
+//@   defines [anchor] result == minPtS(c)
 //@   ensures [range] 0 <= result && (len(c) >= 1 ==> result < len(c))
 //@   ensures [least] forall k int :: 0 <= k && k < len(c) ==> !(c[k].X < c[result].X || c[k].X == c[result].X && c[k].Y < c[result].Y)
 //@   ensures [first] forall k int :: 0 <= k && k < result ==> (c[result].X < c[k].X || c[result].X == c[k].X && c[result].Y < c[k].Y)
@@ -395,10 +406,14 @@ package geom
 //@   prop C15
 //@   mode real
 //@   ensures [len] result ==> len(a) == len(b)
+//@   ensures [every_step_compared] result ==> (forall k int :: 0 <= k && k < len(a) ==> ptClose(a[ringStep(minPtS(a), len(a), k)], b[ringStep(minPtS(b), len(b), k)], e))
+//@   ensures [only_a_far_pair_rejects] !result && len(a) == len(b) ==> (exists k int :: 0 <= k && k < len(a) && !ptClose(a[ringStep(minPtS(a), len(a), k)], b[ringStep(minPtS(b), len(b), k)], e))
 //@   modifies nothing
 //@   loop 1 `for i := 0; i < len(a); i++`
-//@     invariant [idx] 0 <= i && i <= len(a) && len(a) == len(b) && 0 <= ia && 0 <= ib && (len(a) >= 1 ==> ia < len(a) && ib < len(b))
-//@     decreases len(a) - i
+//@     invariant [idx] 0 <= #1 && #1 <= len(a) && len(a) == len(b) && 0 <= ia && 0 <= ib && (len(a) >= 1 ==> ia < len(a) && ib < len(b))
+//@     invariant [walk] ia == ringStep(minPtS(a), len(a), #1) && ib == ringStep(minPtS(b), len(b), #1)
+//@     invariant [close_so_far] forall k int :: 0 <= k && k < #1 ==> ptClose(a[ringStep(minPtS(a), len(a), k)], b[ringStep(minPtS(b), len(b), k)], e)
+//@     decreases len(a) - #1
 
 //@ func (ml MultiLineString) Similar
 //@   prop C15
